@@ -378,3 +378,59 @@ VALIDATE = Contract(
     },
     result_type="None", props=["C08"], use_at_calls=False)
 HEX_TASKS[H + "_validate_indicators"] = dict(builder=validate_builder, contract=VALIDATE)
+
+
+# ---- C08 / C19: Hexital.append hands the caller's candles to every manager (derived timeframes first: the default
+# manager may convert the objects in place), then calculates every indicator once all managers are fed
+_FAN = {}
+
+
+def fanout_builder(ex, st):
+    from hexvc.state import DictP, ListP, ObjP
+    src = ex.ctx.source
+    hcls = src.module("hexital.core.hexital").classes["Hexital"]
+    mcls = src.module("hexital.core.candle_manager").classes["CandleManager"]
+    icls = src.module("hexital.indicators.ema").classes["EMA"]
+    for c in (hcls, mcls, icls):
+        src.resolve_class_bases(c)
+    mk = lambda tf: st.alloc(ObjP(mcls, {"candles": st.alloc(ListP([])), "timeframe": tf, "fed": 0, "fed_before": -1, "arg": None}))
+    m0, m1, m2 = mk(None), mk("T5"), mk("H1")
+    ind = st.alloc(ObjP(icls, {"_name": "EMA_3", "calc_saw": -1}))
+    ind2 = st.alloc(ObjP(icls, {"_name": "EMA_3_T5", "calc_saw": -1}))
+    # dict order as built by the constructor: default first
+    h = st.alloc(ObjP(hcls, {"name": "hex", "_candles": st.alloc(DictP({"default": m0, "T5": m1, "H1": m2})),
+                             "_indicators": st.alloc(DictP({"EMA_3": ind, "EMA_3_T5": ind2}))}))
+    _FAN["managers"] = (m0.oid, m1.oid, m2.oid)
+    arg = st.alloc(ListP([]))
+    yield st, [h, arg], {}, {"self": h, "candles": arg, "m0": m0, "m1": m1, "m2": m2, "ind": ind, "ind2": ind2}
+
+
+def _fan_append(ex, st, args, kwargs, node):
+    def gen():
+        o = st.heap[args[0].oid]
+        fed = sum(1 for oid in _FAN["managers"] if st.heap[oid].fields["fed"])
+        o.fields["fed"] = o.fields["fed"] + 1
+        o.fields["fed_before"] = fed
+        o.fields["arg"] = args[1] if len(args) > 1 else kwargs.get("candles")
+        yield st, None
+    return gen()
+
+
+def _fan_calc(ex, st, args, kwargs, node):
+    def gen():
+        o = st.heap[args[0].oid]
+        o.fields["calc_saw"] = sum(st.heap[oid].fields["fed"] for oid in _FAN["managers"])
+        yield st, None
+    return gen()
+
+
+HEX_TASKS[H + "append"] = dict(builder=fanout_builder, natives={CM + "append": _fan_append, "hexital.core.indicator.Indicator.calculate": _fan_calc},
+                               contract=Contract(
+    H + "append",
+    ensures={
+        "every-manager-fed-exactly-once": "m0.fed == 1 and m1.fed == 1 and m2.fed == 1",
+        "with-the-callers-candles": "m0.arg is candles and m1.arg is candles and m2.arg is candles",
+        "default-manager-last": "m0.fed_before == 2",
+        "indicators-calculated-after-all-managers-are-fed": "ind.calc_saw == 3 and ind2.calc_saw == 3",
+    },
+    result_type="None", props=["C08", "C19", "C01"], use_at_calls=False))
